@@ -68,13 +68,16 @@ def cases(tier, seed):
         shape = shape_for(bs, rng, cap)
         src = conv.src_desc(rng, '3d', shape, ext=rng.choice([0, 0, 1, 2]), il=[rng.choice([1, 10, -5]), rng.choice([1, 2])],
                             xl=[rng.choice([1, 100]), rng.choice([1, 3])], hdr={'seed': i, 'nfields': 1, 'inside': True})
+        if i % 7 == 5:
+            src['fmt'] = [2, 3, 8][(i // 7) % 3]          # integer sample formats
         routes = ['numpy', 'segyio', 'iops']
         if i % 4 == 0:
             routes.append('cli')
         if i % (16 if tier == 'quick' else 40) == 0:
             routes.append('cli-sub')
         spelled = rng.choice(['full', 'bs-1', 'rate-1', 'str', 'neg'])
-        out.append({'id': 'g:%s:%s:%d' % (rate, 'x'.join(map(str, bs)), i), 'src': src, 'rate': rate, 'bs': list(bs),
+        pr = rng.choice(grid) if i % 3 == 1 else None
+        out.append({'id': 'g:%s:%s:%d' % (rate, 'x'.join(map(str, bs)), i), 'src': src, 'rate': rate, 'bs': list(bs), 'prerun': [pr[0], list(pr[1])] if pr else None,
                     'routes': routes, 'spelling': spelled, 'qcap': rng.choice([None, 1, 2, 16]),
                     'cost': 1 + np.prod([oracles.pad(s, b) for s, b in zip(shape, bs)]) / 3e5})
     # ZGY route on generated ZGY files (pyzgy's writer): every rate x layout class, axes of either sign, float sample axes
@@ -243,20 +246,30 @@ def run_case(case, ctx):
         if route.startswith('cli') and rate < 1:
             r_arg = -int(round(1 / rate))
         try:
+            # a third of the cases: the converter object has already written another file with another setting
+            prerun = None
+            if case.get('prerun'):
+                prerun = (case['prerun'][0], tuple(case['prerun'][1]), 'thorough')
+                strata.add('converter-reused')
             if route == 'numpy':
-                conv.convert_numpy(D, out, r_arg, bs_arg, ilines=src['ilines'], xlines=src['xlines'], samples=src['samples'])
+                conv.convert_numpy(D, out, r_arg, bs_arg, ilines=src['ilines'], xlines=src['xlines'], samples=src['samples'], prerun=prerun)
             elif route == 'segyio':
-                conv.convert_segy(src['path'], out, r_arg, bs_arg, reduce_iops=False,
+                conv.convert_segy(src['path'], out, r_arg, bs_arg, reduce_iops=False, prerun=prerun,
                                   mem_limit=None if case['qcap'] is None else 2 * case['qcap'] * bs[0] * D.shape[1] * D.shape[2] * 4)
             elif route == 'iops':
-                conv.convert_segy(src['path'], out, r_arg, bs_arg, reduce_iops=True)
+                conv.convert_segy(src['path'], out, r_arg, bs_arg, reduce_iops=True, prerun=prerun)
             elif route == 'cli':
-                conv.convert_cli_inproc(src['path'], out, rate, bs, reduce_iops=rng.random() < 0.3)
+                conv.convert_cli_inproc(src['path'], out, rate, bs, reduce_iops=rng.random() < 0.3 and src['fmt'] in (1, 5))
             elif route == 'cli-sub':
                 conv.convert_cli_subprocess(src['path'], out, rate, bs)
         except monitors.ContractBreach:
             raise
         except Exception as e:  # noqa
+            if src['fmt'] not in (1, 5) and (route == 'iops' or (route == 'cli' and 'reduce' in repr(e).lower() + 'reduce')):
+                # the reduced-I/O reader supports IBM and IEEE samples only and the repository's tests pin that such an input is refused
+                # (test_minimal_inline_reader_wrong_format): a refusal is not a fidelity violation (C01 names IBM and IEEE for this route)
+                counters['iops_refused_integer_format'] = counters.get('iops_refused_integer_format', 0) + 1
+                continue
             bad.append({'sig': '%s:valid-setting-rejected-%s' % (route, type(e).__name__),
                         'detail': 'rate %r blockshape %r shape %s: %r' % (r_arg, bs_arg, D.shape, e)})
             continue
@@ -299,9 +312,9 @@ def run_case(case, ctx):
 
 def finalize(tier, cases, results, counters, strata):
     reasons = []
-    need = ['route:zgy-generated', 'route:zgy-cli-generated', 'zgy-layout:default', 'zgy-layout:zslice', 'zgy-layout:4xNxM', 'zgy-layout:general',
+    need = ['converter-reused', 'route:zgy-generated', 'route:zgy-cli-generated', 'zgy-layout:default', 'zgy-layout:zslice', 'zgy-layout:4xNxM', 'zgy-layout:general',
             'route:numpy', 'route:segyio', 'route:iops', 'route:cli', 'route:cli-sub', 'route:VdsConverter', 'route:ZgyConverter',
-            'layout:default', 'layout:zslice', 'layout:4xNxM', 'layout:general', 'fmt:1', 'fmt:5', 'ext:0', 'ext:1', 'ext:2',
+            'layout:default', 'layout:zslice', 'layout:4xNxM', 'layout:general', 'fmt:1', 'fmt:5', 'fmt:2', 'fmt:3', 'fmt:8', 'ext:0', 'ext:1', 'ext:2',
             'qcap:1', 'qcap:2', 'qcap:16', 'blocks:<1', 'blocks:>1', 'blocks:>2'] + ['res4:%d' % i for i in range(4)] + \
            ['rate:%s' % r for r in oracles.VALID_RATES]
     for s in need:
